@@ -195,7 +195,7 @@ def n_cookie_passthrough(rep: C.Report) -> None:
             if not seen_n:
                 bad.append((".".join(q), "no kind == 'N' branch", fn.lineno))
         ob.samples.append({"query": "iteration passes the kind=='N' branch and (calls an expander/encoder or does not emit exactly the cookie character)", "violating_exits": bad})
-        if not bad:
+        if not bad and not C.distrust():
             ob.verdict = C.DISCHARGED
             return
         # replay
@@ -259,7 +259,7 @@ def preprocess_order(rep: C.Report) -> None:
                 ob.confirmed_conditions += 1
             else:
                 problems.append((f"{bn} runs before {an}", doc))
-        if not problems:
+        if not problems and not C.distrust():
             ob.verdict = C.DISCHARGED
             return
         gen0, _ = xh.prepare(H)
@@ -316,7 +316,7 @@ def finalize_fixpoint(rep: C.Report) -> None:
             return
         ok = fixpoint_loop(fns[0])
         ob.conditions = ob.queries = ob.paths = 1
-        if ok:
+        if ok and not C.distrust():
             ob.verdict = C.DISCHARGED
             ob.confirmed_conditions = 1
             return
